@@ -425,3 +425,181 @@ Theorem mapmv_values_refine_nk_causal (H : list (oprec (mop mvop))) : mvhist_ok_
 Proof.
   intros Hok%mvhist_causal_nk s K Hr. apply (mapmv_values_refine_nk H Hok). by apply mvreach_causal_nk.
 Qed.
+
+(** * Part 5: corollaries *)
+
+(** knowledge sets of causal schedules are closed under dependencies *)
+Section causal_closed.
+  Context {St Op Cmd : Type} (init : St) (apply : St → Op → St) (merge : St → St → St).
+  Context (gen : St → N → Cmd → option Op).
+  Notation creach := (reach init apply merge adm_causal False).
+  Notation chist_ok := (hist_ok init apply merge gen adm_causal False).
+
+  Definition dep_closed (H : list (oprec Op)) (K : gset nat) : Prop :=
+    ∀ j rj, j ∈ K → H !! j = Some rj → op_deps rj ⊆ K.
+
+  Lemma creach_in_range H s K : creach H s K → ∀ j, j ∈ K → (j < length H)%nat.
+  Proof.
+    induction 1 as [|s K i o Hr IH Ho Ha|s1 K1 s2 K2 [] _ _ _ _]; [set_solver|].
+    intros j [Hj| ->%elem_of_singleton]%elem_of_union; [by apply IH|by eapply lookup_lt_Some].
+  Qed.
+  Lemma creach_closed H s K : creach H s K → dep_closed H K.
+  Proof.
+    induction 1 as [|s K i o Hr IH Ho Ha|s1 K1 s2 K2 [] _ _ _ _]; [intros j rj Hj; set_solver|].
+    intros j rj [Hj| ->%elem_of_singleton]%elem_of_union Hl.
+    - pose proof (IH j rj Hj Hl). set_solver.
+    - destruct Ha as (o' & Ho' & Hd). simplify_eq. set_solver.
+  Qed.
+  Lemma chist_closed H : chist_ok H → ∀ i r, H !! i = Some r →
+    (∀ j, j ∈ op_deps r → (j < i)%nat) ∧ dep_closed H (op_deps r).
+  Proof.
+    induction 1 as [|H s K a cmd o Hok IH Hr Hown Hgen]; [intros i r Hi; by rewrite lookup_nil in Hi|].
+    intros i r Hi. destruct (decide (i < length H)%nat) as [Hl|Hge].
+    - rewrite lookup_app_l in Hi by done. destruct (IH i r Hi) as [Hlt Hc]. split; [done|].
+      intros j rj Hj Hlj. pose proof (Hlt j Hj). rewrite lookup_app_l in Hlj by lia. by apply (Hc j rj).
+    - assert (i = length H) as ->.
+      { apply lookup_lt_Some in Hi. rewrite app_length in Hi. cbn in Hi. lia. }
+      rewrite lookup_app_r, Nat.sub_diag in Hi by lia. cbn in Hi. injection Hi as <-. cbn [op_deps].
+      pose proof (creach_in_range H s K Hr) as Hlt. split; [done|].
+      intros j rj Hj Hlj. pose proof (Hlt j Hj). rewrite lookup_app_l in Hlj by lia.
+      by apply (creach_closed H s K Hr j rj).
+  Qed.
+End causal_closed.
+
+Section corollaries.
+  Context (H : mvhist) (Hok : mvhist_ok_nk H).
+  Let HW : mv_wfH H := mvhist_nk_wf H Hok.
+  Let HH : owfH (habs H) := mvhist_nk_owf H Hok.
+  Implicit Types (s : mvst) (K : gset nat) (k : N).
+
+  (** the monitor's decider *)
+  Theorem mapmv_vals_ok_reach s K : mvreach_nk H s K → mapmv_vals_ok H K s = true.
+  Proof using Hok.
+    intros Hr. apply forallb_forall. intros k _. apply bool_decide_eq_true. by apply mapmv_values_refine_nk.
+  Qed.
+
+  (** the key layer of the same states: map clock, key set, entry clocks are functions of the
+      knowledge; nothing is pending; a key is present iff an update of it is known *)
+  Theorem mapmv_keys_nk s K k : mvreach_nk H s K →
+    let os := known_ops H K in
+    mapreach vo H s K ∧ maphist_ok vo H ∧
+    mclock s = mspec_clock os ∧ mkeys s = mspec_keys os ∧
+    (∀ k, mentry_clock s k = mspec_entry_clock os k) ∧ mdeferred s = ∅ ∧
+    mkeyspec_ok H K s = true ∧
+    (k ∈ dom (mentries s) ↔ ∃ d o, MUp d k o ∈ os) ∧
+    (∀ c ks, MRm c ks ∉ os).
+  Proof using Hok.
+    intros Hr os. pose proof (mvreach_nk_mapreach H s K Hr) as Hr'.
+    destruct (map_keys_reach_mspec vo H HH s K Hr') as (Ec & Ek & Ee & _).
+    destruct (mv_reach_keys H HW s K Hr) as (_ & _ & Ed).
+    assert (∀ c ks, MRm c ks ∉ os) as Hnr.
+    { intros c ks (i & r & Hi & _ & Ho)%elem_of_known_ops.
+      destruct (wf_put H HW i r Hi) as (d & k' & v & Ho'). by rewrite Ho' in Ho. }
+    split_and!; [done|by apply mvhist_nk_maphist|done..|by apply (map_keyspec_ok vo H HH)| |done].
+    destruct (map_key_present_iff vo H HH s K k Hr') as (_ & -> & _). split.
+    - intros (d & o & Hin & _). by exists d, o.
+    - intros (d & o & Hin). exists d, o. split; [done|]. intros (c & ks & Hin' & _). by apply Hnr in Hin'.
+  Qed.
+
+  (** C01 / C20: equal knowledge gives the same key layer and, under every key, the same values *)
+  Theorem mapmv_converge_nk s1 s2 K : mvreach_nk H s1 K → mvreach_nk H s2 K →
+    kabs s1 = kabs s2 ∧
+    (∀ k, mv_state_vals s1 k ≡ₚ mv_state_vals s2 k) ∧
+    (∀ k, rval (mvread (mv_state_vals s1 k)) ≡ₚ rval (mvread (mv_state_vals s2 k))).
+  Proof using Hok.
+    intros H1 H2.
+    assert (∀ k, mv_state_vals s1 k ≡ₚ mv_state_vals s2 k) as Hv.
+    { intros k. rewrite (mapmv_values_refine_nk H Hok s1 K H1 k). symmetry. by apply mapmv_values_refine_nk. }
+    split_and!; [|done|].
+    - apply (map_keys_converge vo H HH s1 s2 K); by apply mvreach_nk_mapreach.
+    - intros k. cbn. by rewrite (Hv k).
+  Qed.
+
+  (** C09: a duplicate op is absorbed (by the dedup gate of the map: nothing changes at all) *)
+  Theorem mapmv_dup_apply_nk s K i r : mvreach_nk H s K → H !! i = Some r → i ∈ K →
+    mapply vo s (op_val r) = s.
+  Proof using Hok.
+    intros Hr Hi HiK. destruct (mv_reach_keys H HW s K Hr) as (_ & Ec & _).
+    destruct (wf_put H HW i r Hi) as (d & k & v & Ho). rewrite Ho. apply mapply_dedup. rewrite Ec.
+    by apply (mv_known_le H K i r d k _ Hi Ho).
+  Qed.
+
+  (** C08: per-actor delivery gives what causal delivery gives *)
+  Theorem mapmv_causal_agree_nk s1 s2 K : mvreach_nk_causal H s1 K → mvreach_nk H s2 K →
+    kabs s1 = kabs s2 ∧ ∀ k, mv_state_vals s1 k ≡ₚ mv_state_vals s2 k.
+  Proof using Hok.
+    intros H1%(mvreach_causal_nk H s1 K Hok) H2.
+    destruct (mapmv_converge_nk s1 s2 K H1 H2) as (? & ? & _). done.
+  Qed.
+
+  (** the sentence of C06 under a key: a value is stored under [k] iff a put of it under [k] is
+      known and no known put of [k] has a strictly greater clock *)
+  Theorem mapmv_stored_iff_nk s K k c v : mvreach_nk H s K →
+    (c, v) ∈ mv_state_vals s k ↔
+      (∃ d, MUp d k (MVPut c v) ∈ known_ops H K) ∧
+      ∀ d' c' v', MUp d' k (MVPut c' v') ∈ known_ops H K → vlt c c' = false.
+  Proof using Hok.
+    intros Hr. rewrite (mapmv_values_refine_nk H Hok s K Hr k). fold (kwrites H K k).
+    rewrite elem_of_mv_maximal. cbn [fst].
+    assert (∀ p, p ∈ kwrites H K k ↔ ∃ d, MUp d k (MVPut p.1 p.2) ∈ known_ops H K) as Hel.
+    { intros p. rewrite elem_of_kwrites. setoid_rewrite elem_of_known_ops. split.
+      - intros (i & r & d & ?). by exists d, i, r.
+      - intros (d & i & r & ?). by exists i, r, d. }
+    split.
+    - intros (Hin & _ & Hmax). split; [by apply (Hel (c, v))|].
+      intros d' c' v' Hin'. apply (Hmax (c', v')), Hel. by exists d'.
+    - intros [Hin Hmax]. split_and!.
+      + by apply (Hel (c, v)).
+      + apply (Hel (c, v)), kwrites_inv in Hin as (i & r & d & Hi & _ & _ & E); [|done]. cbn [fst] in E.
+        rewrite E. by apply pclk_not_empty.
+      + intros q [d' Hq]%Hel. by eapply Hmax.
+  Qed.
+
+  (** the values read under a key *)
+  Corollary mapmv_read_iff_nk s K k v : mvreach_nk H s K →
+    v ∈ rval (mvread (mv_state_vals s k)) ↔
+      ∃ d c, MUp d k (MVPut c v) ∈ known_ops H K ∧
+             ∀ d' c' v', MUp d' k (MVPut c' v') ∈ known_ops H K → vlt c c' = false.
+  Proof using Hok.
+    intros Hr. cbn. rewrite elem_of_list_fmap. split.
+    - intros ([c v'] & -> & Hin). apply (mapmv_stored_iff_nk s K k c v' Hr) in Hin as [[d Hin] Hmax]. by exists d, c.
+    - intros (d & c & Hin & Hmax). exists (c, v). split; [done|]. apply (mapmv_stored_iff_nk s K k c v Hr).
+      split; [by exists d|done].
+  Qed.
+
+  (** the clock order in terms of observation.  Per-actor delivery: the clock of put [j] is
+      strictly below the clock of put [i] iff the author of [i] had applied [j] AND everything the
+      author of [j] had applied when it generated [j] (the second conjunct cannot be dropped under
+      per-actor delivery: [mapmv_observed_not_enough]) *)
+  Theorem mapmv_clock_observed_nk i ri di ki ci vi j rj dj kj cj vj :
+    H !! i = Some ri → op_val ri = MUp di ki (MVPut ci vi) →
+    H !! j = Some rj → op_val rj = MUp dj kj (MVPut cj vj) →
+    (vlt cj ci = true ↔ j ∈ op_deps ri ∧ op_deps rj ⊆ op_deps ri) ∧
+    (vleq cj ci ↔ op_deps rj ∪ {[j]} ⊆ op_deps ri ∪ {[i]}) ∧
+    (vlt cj ci = true → (j < i)%nat) ∧
+    (cj = ci → j = i).
+  Proof using Hok.
+    intros Hi Hoi Hj Hoj.
+    assert (ci = pclk H ri i) as ->.
+    { destruct (wf_put H HW i ri Hi) as (d' & k' & v' & Ho'). rewrite Hoi in Ho'. by injection Ho'. }
+    assert (cj = pclk H rj j) as ->.
+    { destruct (wf_put H HW j rj Hj) as (d' & k' & v' & Ho'). rewrite Hoj in Ho'. by injection Ho'. }
+    split_and!.
+    - by apply pclk_lt_iff.
+    - by apply pclk_le_iff.
+    - by apply pclk_lt_index.
+    - intros E. symmetry. by eapply pclk_inj.
+  Qed.
+End corollaries.
+
+(** ... causal delivery: iff the author of [i] had applied [j] *)
+Theorem mapmv_clock_observed_causal H i ri di ki ci vi j rj dj kj cj vj : mvhist_ok_nk_causal H →
+  H !! i = Some ri → op_val ri = MUp di ki (MVPut ci vi) →
+  H !! j = Some rj → op_val rj = MUp dj kj (MVPut cj vj) →
+  (vlt cj ci = true ↔ j ∈ op_deps ri).
+Proof.
+  intros Hc Hi Hoi Hj Hoj. pose proof (mvhist_causal_nk H Hc) as Hok.
+  destruct (mapmv_clock_observed_nk H Hok i ri di ki ci vi j rj dj kj cj vj Hi Hoi Hj Hoj) as (-> & _).
+  split; [by intros [? _]|]. intros Hjd. split; [done|].
+  destruct (chist_closed mnew (mapply vo) (mmerge vo) mvgen H Hc i ri Hi) as [_ Hcl]. by apply (Hcl j rj).
+Qed.
